@@ -119,6 +119,21 @@ def arrow(F, rep):
     for hid, o in fl.origin.items():
         if fl.names.get(hid) == "extra_arg" and o["kind"] == "let":
             ea = pp(o["src"])
+    # parser side: what follows `->` is parsed at the call level, so a binary operator after the call belongs to the
+    # surrounding expression: `a -> f(b) + c` is `f(a, b) + c`
+    ac = F.fn("sylt_parser::expression::arrow_call")
+    rep.analysed(ac)
+    lv = None
+    whole = False
+    for c_ in nodes(fn_body(ac), "Call"):
+        if callee(c_) == "sylt_parser::expression::expression":
+            whole = True
+        if callee(c_) == "sylt_parser::expression::parse_precedence" and len(c_["args"]) > 1:
+            lv = last(norm_path(peel(c_["args"][1]).get("path", "")))
+    rep.ob("ARROW", "parser|rhs-level", lv in ("Index", "Arrow") and not whole,
+           "the right-hand side of `->` is parsed at the call level (parse_precedence(.., Prec::%s)%s)" % (
+               lv, "; it is parsed with expression(), i.e. at the loosest level: it swallows every operator that follows, and "
+               "`a -> f(b) + c` is rejected with `Expected a call-expression after '->'`" if whole else ""), ac["sp"])
     rep.ob("ARROW", "prepended-is-lhs", ea is not None and ea.startswith("self.expression(extra_arg)"), "the prepended argument is the resolved left operand (%s)" % ea, line_of(a[1]))
 
 
